@@ -9,6 +9,7 @@ CONSTANTS
   DevNoDispatchedFlag = FALSE
   DevTitanSkipsChain = FALSE
   DevSilentDeny = FALSE
+  DevVerbatimRefusal = FALSE
   DevRawResponse = FALSE
 INVARIANT TypeOK
 INVARIANT OneResponse
